@@ -113,6 +113,16 @@ def render(am, world_box, class_name=None, strict_states=False):
             kw["exit"] = list(s["exit"])
         states[s["id"]] = State(initial=bool(s.get("initial")), final=bool(s.get("final")), **kw)
         attrs[s["id"]] = states[s["id"]]
+    ev_objs = {}
+    if am.get("event_objects"):
+        # id-less Event() objects declared up-front as class attributes and passed to the transitions by reference
+        from statemachine import Event
+
+        for t in am["transitions"]:
+            for e in t["events"]:
+                if e not in ev_objs:
+                    ev_objs[e] = Event()
+                    attrs[e] = ev_objs[e]
     for t in am["transitions"]:
         kw = {}
         for g in ("validators", "cond", "unless", "before", "on", "after"):
@@ -121,7 +131,11 @@ def render(am, world_box, class_name=None, strict_states=False):
                 kw[g] = v[0] if len(v) == 1 and t.get("unwrap_single", True) else v
         if t.get("internal"):
             kw["internal"] = True
-        states[t["src"]].to(states[t["tgt"]], event=" ".join(t["events"]), **kw)
+        if ev_objs:
+            evs = [ev_objs[e] for e in t["events"]]
+            states[t["src"]].to(states[t["tgt"]], event=evs[0] if len(evs) == 1 else evs, **kw)
+        else:
+            states[t["src"]].to(states[t["tgt"]], event=" ".join(t["events"]), **kw)
     methods = am.get("methods", {})
     for name in methods.get("machine", []):
         attrs[name] = make_method(world_box, "machine", name, ("machine", name) in asyncs, uid)
